@@ -13,8 +13,9 @@ Record case := mkCase {
   k_config : config;
   k_readable : list string;             (* paths on which os.OpenFile succeeded (asked by the harness in the child's cwd) *)
   k_data : list (string * nat);         (* data source path -> 0 unloadable, 1 malformed, 2 the exported data set *)
-  k_out_usable : bool;
-  k_profile_ok : bool;
+  k_out_is_file : bool;                 (* os.Stat of the OutputPath: an existing non-directory, or an error other than "does not exist" *)
+  k_out_creatable : bool;               (* the saver's MkdirAll of a missing OutputPath succeeds *)
+  k_profile_dir_ok : bool;              (* the directory of the CpuProfilePath exists *)
   k_outcomes : list nat;                (* 0 load error, 1 interpret error, 2 completed, 3 Run() returned an error,
                                            4 loader panicked, 5 interpreter panicked, 6 process died in Run(), 7 no end within the time limit *)
   k_errs : list err;
@@ -24,7 +25,8 @@ Record case := mkCase {
 Definition env_of (d0 : dataset) (c : case) : env :=
   mkEnv (fun p => existsb (String.eqb p) (k_readable c))
         (fun p => match assoc p (k_data c) with Some 2%nat => DataOk d0 | Some 1%nat => DataMalformed | _ => DataUnloadable end)
-        (fun _ => k_out_usable c) (fun _ => k_profile_ok c) false (fun _ => true).
+        (fun _ => k_out_is_file c) (fun _ => negb (k_out_is_file c) && k_out_creatable c) (fun _ => k_profile_dir_ok c) (fun _ => k_profile_dir_ok c)
+        false (fun _ => true).
 
 (* round-robin picks: every index n times, ascending *)
 Definition canon_picks (n : nat) : list nat := List.concat (repeat (seq 0 n) n).
@@ -33,7 +35,9 @@ Definition canon_choice (n : nat) : nat -> choice := fun _ => mkChoice (canon_pi
 Definition err_eqb (a b : err) : bool :=
   match a, b with
   | EDecode, EDecode | EUnknownKeys, EUnknownKeys | EModelUnregistered, EModelUnregistered | EModelLimits, EModelLimits
-  | EAnnealerUnregistered, EAnnealerUnregistered | EScenarioName, EScenarioName => true
+  | EAnnealerUnregistered, EAnnealerUnregistered | EScenarioName, EScenarioName
+  | EModelData, EModelData | ELimitNotBinding, ELimitNotBinding | EDecisionVariable, EDecisionVariable
+  | EOutputPath, EOutputPath | EExcel, EExcel | EProfilePath, EProfilePath => true
   | EMandatory x, EMandatory y | EModelParam x, EModelParam y | EAnnealerParam x, EAnnealerParam y
   | ELogDestination x, ELogDestination y => String.eqb x y
   | _, _ => false
@@ -46,20 +50,6 @@ Definition same_set {A} (eqb : A -> A -> bool) (l m : list A) : bool := subset e
 Definition errs_match (predicted observed : list err) : bool :=
   if existsb (err_eqb EDecode) predicted then existsb (err_eqb EDecode) observed
   else same_set err_eqb predicted observed.
-
-(* a non-binding limit admits EVERY order of attempts when each action can be toggled first and can be toggled last *)
-Definition toggle_valid (d : dataset) (s : state) (i : nat) (dir : bool) : bool :=
-  change_is_valid d (initialising_set d s i dir true).
-
-Definition far_lax (d : dataset) : bool :=
-  match d_limit d with
-  | None => false
-  | Some (k, _) =>
-      let dir := loop_dir k in
-      forallb (fun i => toggle_valid d (start_extreme d) i dir
-                        && toggle_valid d (initialising_set d (opposite_extreme d) i (negb dir) false) i dir)
-              (seq 0 (nactions d))
-  end.
 
 Inductive prediction :=
 | PErrors (code : nat) (es : list err)
@@ -77,21 +67,13 @@ Definition predict (F : facts) (T : tables) (d0 : dataset) (c : case) : predicti
       | Errors es => PErrors 1 es
       | Done sc =>
           let n := match s_data sc with DataOk d => nactions d | _ => 0%nat end in
-          let det := match run_model E sc (canon_choice n) 1%float 1%float with
-                     | Completed fs => PExactly 2 fs
-                     | RunError => PExactly 3 []
-                     | RunCrash => PExactly 6 []
-                     | RunSpin => PExactly 7 []
-                     end in
-          match s_mkind sc, s_data sc, s_limit sc with
-          | MKCatchment, DataOk d0', Some lim =>
-              let d := with_limit d0' (Some lim) in
-              if limit_binding d then det
-              else match det with
-                   | PExactly 2 _ | PExactly 6 _ => if far_lax d then PExactly 6 [] else PAnyOf [2%nat; 6%nat]
-                   | other => other
-                   end
-          | _, _, _ => det
+          (* since C19-12 an accepted limit is binding: the outcome does not depend on the random picks (C19_accepted_runs_partial);
+             the model is run on round-robin picks *)
+          match run_model E sc (canon_choice n) 1%float 1%float with
+          | Completed fs => PExactly 2 fs
+          | RunError => PExactly 3 []
+          | RunCrash => PExactly 6 []
+          | RunSpin => PExactly 7 []
           end
       end
   end.
